@@ -174,6 +174,12 @@ func (dcw *DeferredCarWriter) writer() (carstorage.WritableCar, error) {
 				// The CAR header may be partly written and a stream cannot be rewound:
 				// starting over on the next call would corrupt the output.
 				dcw.closed = true
+			} else if dcw.f != nil {
+				// Do not leave a partly written header behind, nor its descriptor open: the
+				// next Put starts the file afresh, and a Close without one leaves no file.
+				dcw.f.Close()
+				os.Remove(dcw.outPath)
+				dcw.f = nil
 			}
 			return nil, err
 		}
